@@ -1128,11 +1128,14 @@ pub struct GenOpts {
     pub loops: bool,
     pub windows: bool,
     pub max_steps: usize,
+    /// also generate `replication(Limited(k))` over forward links (the shape of finding F4); off by
+    /// default, `NVH_E2E_LIMFWD=1` turns it on in the `e2e` binary
+    pub limited_forward: bool,
 }
 
 impl Default for GenOpts {
     fn default() -> Self {
-        GenOpts { loops: true, windows: true, max_steps: 9 }
+        GenOpts { loops: true, windows: true, max_steps: 9, limited_forward: false }
     }
 }
 
@@ -1387,7 +1390,9 @@ impl Gen {
             }
             15 => {
                 let ordered = inf.ordered && inf.rep == Rep::One;
-                self.add(Kind::Repl(r, Rep::One), vec![Info { rep: Rep::One, ordered, ..inf }]);
+                // Limited(k) over a forward link only from an unlimited block (F8: never from fewer replicas)
+                let rep = if self.opts.limited_forward && inf.rep == Rep::U { *rng.pick(&[Rep::One, Rep::L(2), Rep::L(3)]) } else { Rep::One };
+                self.add(Kind::Repl(r, rep), vec![Info { rep, ordered, ..inf }]);
             }
             16 => {
                 let rep = *rng.pick(&[Rep::U, Rep::One, Rep::L(2), Rep::L(3)]);
